@@ -366,6 +366,62 @@ def work(item):
         shutil.rmtree(root, ignore_errors=True)
 
 
+REPEAT_SCHEMA = ('<schema><multikey name="k"/><sectiontype name="s"><multikey name="k"/>'
+                 '<multisection type="s" name="*" attribute="ss"/></sectiontype>'
+                 '<multisection type="s" name="*" attribute="ss"/></schema>')
+# (files, main): the same resource included MORE THAN ONCE without any cycle - twice in a row, from
+# two different sections, from two different includers (a diamond), again after an intermediate file
+REPEATS = [
+    ({"main.conf": ["%include f.conf", "%include f.conf"], "f.conf": ["k v"]}, "main.conf"),
+    ({"main.conf": ["<s a>", "%include f.conf", "</s>", "<s b>", "%include f.conf", "</s>", "%include f.conf"],
+      "f.conf": ["k v", "<s>", "k w", "</s>"]}, "main.conf"),
+    ({"main.conf": ["%include a.conf", "%include b.conf"], "a.conf": ["k a", "%include c.conf"],
+      "b.conf": ["%include c.conf", "k b"], "c.conf": ["k c"]}, "main.conf"),
+    ({"main.conf": ["%include a.conf", "%include c.conf", "%include a.conf"], "a.conf": ["%include c.conf"],
+      "c.conf": ["k c"]}, "main.conf"),
+    ({"main.conf": ["%include d/a.conf", "%include d/../d/a.conf", "%include ./d/a.conf"],
+      "d/a.conf": ["k a"]}, "main.conf"),
+]
+
+
+def _inline(files, name, base=""):
+    out = []
+    for l in files[name]:
+        if l.startswith("%include "):
+            ref = posixpath.normpath(posixpath.join(posixpath.dirname(name), l.split(None, 1)[1]))
+            out.extend(_inline(files, ref))
+        else:
+            out.append(l)
+    return out
+
+
+def repeats(col):
+    """Directed: a resource included several times (no cycle) = its text inlined several times."""
+    ZConfig = use_repo()
+    schema = cs.load_schema(REPEAT_SCHEMA)
+    root = tempfile.mkdtemp(prefix="c06r-", dir=cs.fast_tmp())
+    try:
+        for n, (files, main) in enumerate(REPEATS):
+            sub = os.path.join(root, "r%d" % n)
+            for name, lines in files.items():
+                path = os.path.join(sub, name)
+                os.makedirs(os.path.dirname(path), exist_ok=True)
+                with open(path, "w", encoding="utf-8") as f:
+                    f.write("".join(l + "\n" for l in lines))
+            text = "".join(l + "\n" for l in _inline(files, main))
+            inl = cs.load_text(schema, text)
+            got = cs.outcome(ZConfig.loadConfig, schema, os.path.join(sub, main))
+            col.case(("repeat", n), {"files": files, "outcome": cs.brief(got)} if n == 0 else None)
+            if not cs.same_outcome(got, inl):
+                col.violation("C06:repeated-include-differs-from-inlining",
+                              "a resource included more than once (without a cycle) does not behave like its "
+                              "text written out at each place", {"files": files},
+                              cs.brief(inl) if inl[0] != "ok" else ["ok", repr(inl[1])],
+                              cs.brief(got).replace(sub, "<root>") if got[0] != "ok" else ["ok", repr(got[1])])
+    finally:
+        shutil.rmtree(root, ignore_errors=True)
+
+
 def run(tier, seed):
     use_repo()
     quick = tier == "quick"
@@ -382,6 +438,7 @@ def run(tier, seed):
         for sh in range(nsh):
             items.append(("directed", di, (sh, nsh), 15 if quick else 150))
     col = Collector()
+    repeats(col)
     for part in pmap(work, items, chunksize=1):
         col.merge(part)
     return col.result(
@@ -393,8 +450,9 @@ def run(tier, seed):
               "tiny texts about definition flow: all plans of <=2 cuts "
               "exhaustively + sampled 3-cut plans; unbalanced cuts (also "
               "nested) must be rejected; a decoy file sits wherever a "
-              "nested reference would land if resolved against the top URL"
-              % (nseeds, budget, len(DIRECTED)),
+              "nested reference would land if resolved against the top URL; "
+              "%d directed file sets that include one resource several times without a cycle"
+              % (nseeds, budget, len(DIRECTED), len(REPEATS)),
         rule="case = (text, file set); distinct = distinct (schema, set of "
              "written files incl. contents); non-trivial: every case loads "
              "at least one included resource")
